@@ -744,6 +744,24 @@ class SeqAlg:
             if self._helper_of(v) is not None:
                 self.call_helper(self._helper_of(v), v, env)
                 return
+            if isinstance(v, ast.Call) and isinstance(v.func, ast.Attribute) and v.func.attr == "update" and len(v.args) == 1 and not v.keywords and self._key(v.func.value) and not self.loop_stack and not conds:
+                # D.update(zip(range(k, len(X) + k), X)) on a dict that is still empty: the dict keyed k, k + 1, ... over the elements of X
+                key = self._key(v.func.value)
+                o = self.obj(env.get(key))
+                z = v.args[0]
+                if o is not None and o.kind == "dict" and o.comp is None and isinstance(z, ast.Call) and isinstance(z.func, ast.Name) and z.func.id == "zip" and len(z.args) == 2 and not z.keywords:
+                    rng = self.expr(z.args[0], env) if not isinstance(z.args[0], ast.Call) else None
+                    ro = self.obj(rng) if rng is not None else None
+                    rcomp = ro.comp if ro is not None and ro.comp is not None else self.as_comp(z.args[0], env)
+                    xc = self.as_comp(z.args[1], env)
+                    if len(rcomp.gens) == 1 and not rcomp.conds and rcomp.gens[0][3] == 1 and rcomp.elt == rcomp.gens[0][0] and is_const(rcomp.gens[0][1]) and isinstance(rcomp.gens[0][1][1], int):
+                        k0 = rcomp.gens[0][1][1]
+                        n_keys = ("bin", "-", rcomp.gens[0][2], rcomp.gens[0][1])
+                        if self.same(n_keys, self.cnt(xc.gens, xc.conds)):
+                            ref = self.new_obj("dict", v)
+                            self.objs[ref[1]].comp, self.objs[ref[1]].base = xc, k0
+                            env[key] = ref
+                            return
             raise Unsupported(f"expression statement {ast.unparse(v)[:50]}")
         if isinstance(s, ast.Assign) and _plain_increment(s) is not None and self._key(s.targets[0]) and (self._acc(self._key(s.targets[0])) or {}).get("kind") == "counter":
             s2 = ast.AugAssign(target=s.targets[0], op=ast.Add(), value=ast.Constant(value=1))
@@ -890,9 +908,33 @@ class SeqAlg:
             accs[k] = {"kind": kind, "init": init, "site": None}
         return accs
 
+    @staticmethod
+    def _guards_to_ifs(stmts):
+        """`if T: continue` followed by the rest of the loop body is `if not T: <rest>` (guard-clause style of a scan loop)."""
+        out = []
+        for i, st in enumerate(stmts):
+            if isinstance(st, ast.If) and not st.orelse and len(st.body) == 1 and isinstance(st.body[0], ast.Continue):
+                rest = SeqAlg._guards_to_ifs(stmts[i + 1:])
+                if rest:
+                    neg = st.test.operand if isinstance(st.test, ast.UnaryOp) and isinstance(st.test.op, ast.Not) else ast.copy_location(ast.UnaryOp(op=ast.Not(), operand=st.test), st.test)
+                    out.append(ast.copy_location(ast.If(test=neg, body=rest, orelse=[]), st))
+                return out
+            if isinstance(st, ast.For) and not st.orelse:
+                nb = SeqAlg._guards_to_ifs(st.body)
+                if len(nb) != len(st.body) or any(a is not b for a, b in zip(nb, st.body)):
+                    st = ast.copy_location(ast.For(target=st.target, iter=st.iter, body=nb or [ast.copy_location(ast.Pass(), st)], orelse=[], type_comment=None), st)
+                    ast.fix_missing_locations(st)
+            out.append(st)
+        return out
+
     def loop(self, s: ast.For, env, conds):
         if s.orelse:
             raise Unsupported("for-else")
+        nb = self._guards_to_ifs(s.body)
+        if len(nb) != len(s.body) or any(a is not b for a, b in zip(nb, s.body)):
+            s2 = ast.copy_location(ast.For(target=s.target, iter=s.iter, body=nb or [ast.copy_location(ast.Pass(), s)], orelse=[], type_comment=None), s)
+            ast.fix_missing_locations(s2)
+            s = s2
         for n in ast.walk(s):
             if isinstance(n, (ast.Break, ast.Continue, ast.Return, ast.While, ast.Try, ast.With, ast.Raise)):
                 raise Unsupported(f"{type(n).__name__} inside a scan loop")
